@@ -159,7 +159,7 @@ static void run() {
             if (zh && !a.thorough() && (kx % 8) != (a.seed % 8)) continue; // single-character words: every 8th in quick (linear search is slow), all in thorough
             SplitMix sm(mix64(a.seed * 131 + li)); std::vector<uint8_t> sec(19); for (auto& b : sec) b = (uint8_t)sm.next();
             Case c; c.set("kind", "word"); c.set("lang", REG->at(li).name_en); c.set("k", kx); c.set("secret", hex(sec)); c.set("birthday", sm.next() % 1024); c.set("ufeat", sm.next() % 8);
-            set_current(c); std::string m = oracle(c); done++; if (!m.empty()) { if (W().failures == 0) record_failure(c, m); return; }
+            set_current(c); std::string m = oracle(c); done++; if (!m.empty()) { if (W().failures == 0 && !enum_fail(c, m)) continue; return; }
         }
     }
     ev.enumerated["words (language x index), all prefix lengths x accent subsets x NFC/NFD x negative suffixes each"] += done;
